@@ -98,15 +98,19 @@ def build_ocaml():
     return rc == 0, out
 
 
-def build_go():
-    """Always rebuilt: the implementation under test is /repo's working tree."""
-    shutil.copyfile(os.path.join(REPO, "go.sum"), os.path.join(VERIF, "harness", "go.sum"))
+def point_modules_at_repo():
+    """A scratch copy of /verif testing a scratch copy of the repository (tools/try_seeded.py)."""
     if REPO != "/repo":
-        # scratch copy of /verif testing a scratch copy of the repository: point the modules at it
         for gm in (os.path.join(VERIF, "harness", "go.mod"), os.path.join(VERIF, "harness", "racework", "go.mod")):
             txt = open(gm).read()
             txt = re.sub(r"(github.com/couchbase/moss => )\S+", lambda m: m.group(1) + REPO, txt)
             open(gm, "w").write(txt)
+
+
+def build_go():
+    """Always rebuilt: the implementation under test is /repo's working tree."""
+    shutil.copyfile(os.path.join(REPO, "go.sum"), os.path.join(VERIF, "harness", "go.sum"))
+    point_modules_at_repo()
     rc, out = sh(["go", "build", "-tags", "verif", "-o", os.path.join(BUILD, "director"), "./director"],
                  cwd=os.path.join(VERIF, "harness"), env=GOENV, timeout=900)
     return rc == 0, out
